@@ -17,7 +17,7 @@ use rustc_middle::mir::{
     self, AggregateKind, AssertKind, BinOp, Body, Const, Operand, Place, ProjectionElem, Rvalue,
     StatementKind, TerminatorKind,
 };
-use rustc_middle::ty::print::{with_crate_prefix, with_no_trimmed_paths, PrintTraitRefExt};
+use rustc_middle::ty::print::{with_crate_prefix, with_no_trimmed_paths, with_no_visible_paths, PrintTraitRefExt};
 use rustc_middle::ty::{self, Ty, TyCtxt};
 use std::collections::BTreeMap;
 use std::fmt::Write as _;
@@ -140,7 +140,7 @@ fn fix_crate(sx: String, krate: &str) -> String {
 
 impl<'tcx> Cx<'tcx> {
     fn path(&self, did: DefId) -> String {
-        fix_crate(with_crate_prefix!(with_no_trimmed_paths!(self.tcx.def_path_str(did))), &self.krate)
+        fix_crate(with_crate_prefix!(with_no_visible_paths!(with_no_trimmed_paths!(self.tcx.def_path_str(did)))), &self.krate)
     }
     /// Stable, module-independent name for functions of kanata crates:
     ///   trait impl method  -> `<SelfTy as Trait>::name`
@@ -168,9 +168,9 @@ impl<'tcx> Cx<'tcx> {
                         let tr = tcx.impl_trait_ref(parent).instantiate_identity().skip_norm_wip();
                         let st = self.tystr(tr.self_ty());
                         let trs = fix_crate(
-                            with_crate_prefix!(with_no_trimmed_paths!(tr
+                            with_crate_prefix!(with_no_visible_paths!(with_no_trimmed_paths!(tr
                                 .print_only_trait_path()
-                                .to_string())),
+                                .to_string()))),
                             &self.krate_of(did),
                         );
                         format!("<{} as {}>::{}", st, trs, name)
@@ -201,7 +201,7 @@ impl<'tcx> Cx<'tcx> {
         self.tcx.crate_name(did.krate).to_string()
     }
     fn tystr(&self, t: Ty<'tcx>) -> String {
-        fix_crate(with_crate_prefix!(with_no_trimmed_paths!(t.to_string())), &self.krate)
+        fix_crate(with_crate_prefix!(with_no_visible_paths!(with_no_trimmed_paths!(t.to_string()))), &self.krate)
     }
     fn peel(&self, mut t: Ty<'tcx>) -> Ty<'tcx> {
         loop {
@@ -585,7 +585,7 @@ impl<'tcx> Cx<'tcx> {
                         } else {
                             tv.push(("r", J::Null));
                         }
-                        let ga = fix_crate(with_crate_prefix!(with_no_trimmed_paths!(format!("{:?}", gargs))), &self.krate);
+                        let ga = fix_crate(with_crate_prefix!(with_no_visible_paths!(with_no_trimmed_paths!(format!("{:?}", gargs)))), &self.krate);
                         tv.push(("ga", s(ga)));
                     } else {
                         tv.push(("f", J::Null));
